@@ -263,7 +263,34 @@ def bias_rejects(V, which):
     return [("out-of-range argument rejected", False)]
 
 
-FUNCS = {"encode": encode, "cache": cache, "bias": bias, "bias_rejects": bias_rejects}
+def codec_args(V, accel, dx, dy, bits, partk, depthwise):
+    """the Python wrapper around the C codec hands it the hardware parameters of the accelerator and the sub-kernel decomposition of
+    the right axis: the maximum 8x8 sub-kernel shrinks with the dilation of ITS OWN direction (height with y, width with x)"""
+    import numpy as np
+    import ethosu.vela.weight_compressor as wc
+    from ethosu.vela.architecture_features import Accelerator
+    from ethosu.vela.api import NpuBlockTraversal
+    from harness.c15 import HW
+
+    cap = {}
+    saved = wc.mlw_codec
+    wc.mlw_codec = _Obj(reorder_encode=lambda *a: cap.setdefault("a", a) and (bytearray(16), 0) or (bytearray(16), 0))
+    try:
+        vol = np.zeros((8, 3, 5, 4), dtype=np.int16)
+        wc.encode_weights(Accelerator[accel], vol, (dx, dy), bits, 8, bool(depthwise),
+                          NpuBlockTraversal.PART_KERNEL_FIRST if partk else NpuBlockTraversal.DEPTH_FIRST)
+    finally:
+        wc.mlw_codec = saved
+    a = cap.get("a")
+    if a is None:
+        return [("codec reached", False)]
+    (uw, uh, ud), (iuw, iuh, iud), _, _ = HW[accel]
+    return [("IFM / OFM micro-block depths of the accelerator", (a[0], a[1]) == (iud, ud)), ("weights volume and OFM block depth passed through", a[2] is vol and a[3] == 8),
+            ("depthwise / part-kernel flags and bit depth", (a[4], a[5], a[6]) == (bool(depthwise), bool(partk), bits)),
+            ("sub-kernel height shrinks with the y dilation, width with the x dilation", (a[7], a[8]) == (8 // dy, 8 // dx))]
+
+
+FUNCS = {"codec_args": codec_args, "encode": encode, "cache": cache, "bias": bias, "bias_rejects": bias_rejects}
 
 
 def instances(tier, seed):
@@ -277,6 +304,11 @@ def instances(tier, seed):
         for first, second in (([0, 16, 48, 64], [0, 16, 32, 48, 64]), ([0, 16, 32], [0, 16, 24, 32]), ([0, 32, 64], [0, 32, 48, 64]), ([0, 16, 32], [0, 16, 32])):
             out.append(dict(key="cache/%s/%s_then_%s" % (accel, "-".join(map(str, first)), "-".join(map(str, second))), fn="cache",
                             params=dict(accel=accel, first=first, second=second)))
+    for accel in ("Ethos_U55_32", "Ethos_U55_64", "Ethos_U55_128", "Ethos_U55_256", "Ethos_U65_256", "Ethos_U65_512"):
+        for dx, dy in ((1, 1), (2, 1), (1, 2), (2, 2)):
+            for bits, partk, dw in ((8, 0, 0), (16, 1, 0), (8, 0, 1)):
+                out.append(dict(key="codec_args/%s/d%dx%d/b%d_p%d_dw%d" % (accel, dx, dy, bits, partk, dw), fn="codec_args",
+                                params=dict(accel=accel, dx=dx, dy=dy, bits=bits, partk=partk, depthwise=dw)))
     out.append(dict(key="bias/pack", fn="bias", params={}))
     for w in ("bias_hi", "bias_lo", "scale", "shift", "neg_scale"):
         out.append(dict(key="bias_rejects/%s" % w, fn="bias_rejects", params=dict(which=w)))
